@@ -14,31 +14,35 @@ PROPS = {
     "C14": {
         "rule": "cases: scalar values from the boundary-biased generator gen.Int(n) (tiny, n-1.., 2^k+-1, bit 255 forced, limb "
                 "patterns, windows, sparse, short, uniform), built either through Decode (canonical domain) or by writing "
-                "Montgomery limbs; plus fixed boundary scalars. Non-trivial: canonical value > 1. Distinct: by hash of the case. A quarter of the scalars are used objects (object history), a sixth are results of arithmetic; fixed cases sweep the ~10^4 limb-pattern values in both domains; low limbs include quotient-aimed words.",
-        "units": [unit("props", "^TestC14", tier(800000, 8, 900), tier(16000000, 16, 5400))],
+                "Montgomery limbs; plus fixed boundary scalars. Non-trivial: canonical value > 1. Distinct: by hash of the case. A quarter of the scalars are used objects (object history), a sixth are results of arithmetic; fixed cases sweep the ~10^4 limb-pattern values in both domains; low limbs include quotient-aimed words. endurance: one API function called 2^20+2^10 (quick; slower functions 2^17 or 2^13) or 2^24+2^12 (thorough; slowest 2^18) times in one process from call number 0, every call compared with a pre-computed model result, operands rotating through a table of boundary and ordinary values (rotation offset = shard); all cases non-trivial.",
+        "units": [unit("props", "^TestC14", tier(800000, 8, 900), tier(16000000, 16, 5400)),
+                  unit("endure", "^TestEndure$", tier(1, 4, 900), tier(1, 4, 5400), env={"VERIF_ENDURE_PROP": "C14", "VERIF_SHARDS": "1"}, expects=["C14/endurance"])],
         "checks_expected": ["C14/bits"],
     },
     "C13": {
         "rule": "compare: ordered scalar pairs by relation class (equal, same value in the other domain, adjacent, one canonical limb "
                 "changed, one Montgomery limb changed, random) from the boundary-biased scalar generator; non-trivial = the two values "
                 "differ. cselect: condition words from {0,1,2,3,4,0xff,2^31,2^32,2^63,2^64-1,...} or uniform, operands in both domains, "
-                "nil operands, receiver aliasing an operand; non-trivial = cond not in {0,1}, u != v, no nil. Distinct: by case hash. Additional relations: several canonical words perturbed (64/32-bit), the same value once plain and once as the result of an arithmetic operation (equal-computed); fixed cases: all ordered pairs of the 256 values with limbs in {0,1,2^63,2^64-1}, in both domains. after-failed-call: a scalar object whose last call failed (rejected 32-byte input in [n, 2^256) through the three decoders, CSelect with a nil operand) is compared with a fresh scalar holding the value it encodes to and with an unrelated scalar; all cases non-trivial.",
-        "units": [unit("props", "^TestC13", tier(800000, 8, 900), tier(16000000, 16, 5400))],
+                "nil operands, receiver aliasing an operand; non-trivial = cond not in {0,1}, u != v, no nil. Distinct: by case hash. Additional relations: several canonical words perturbed (64/32-bit), the same value once plain and once as the result of an arithmetic operation (equal-computed); fixed cases: all ordered pairs of the 256 values with limbs in {0,1,2^63,2^64-1}, in both domains. after-failed-call: a scalar object whose last call failed (rejected 32-byte input in [n, 2^256) through the three decoders, CSelect with a nil operand) is compared with a fresh scalar holding the value it encodes to and with an unrelated scalar; all cases non-trivial. endurance: one API function called 2^20+2^10 (quick; slower functions 2^17 or 2^13) or 2^24+2^12 (thorough; slowest 2^18) times in one process from call number 0, every call compared with a pre-computed model result, operands rotating through a table of boundary and ordinary values (rotation offset = shard); all cases non-trivial.",
+        "units": [unit("props", "^TestC13", tier(800000, 8, 900), tier(16000000, 16, 5400)),
+                  unit("endure", "^TestEndure$", tier(1, 4, 900), tier(1, 4, 5400), env={"VERIF_ENDURE_PROP": "C13", "VERIF_SHARDS": "1"}, expects=["C13/endurance"])],
         "checks_expected": ["C13/compare", "C13/cselect", "C13/after-failed-call"],
     },
     "C06": {
         "rule": "cases (op, s, t, alias, nil, u64): op from {add,sub,mul,square,invert,pow,setuint64,zero,one,minusone,set,copy}; "
                 "operands from the boundary-biased generator in canonical (via Decode) and Montgomery-limb domains; 10% aliased, 10% nil. "
-                "Oracle math/big mod n plus stored-limbs canonicity. Non-trivial = an operand (or the uint64) is > 1. Distinct by case hash. mul and square get a larger share; a quarter of the operands are used objects, a sixth are results of arithmetic (provenance); fixed cases sweep all values whose Montgomery limbs come from ten limb patterns (about 10^4) through square and aliased mul/add. Random limbs are uniform (gen.U64).",
-        "units": [unit("props", "^TestC06", tier(600000, 8, 900), tier(12000000, 16, 5400, fuzztime=90), fuzz=["FuzzScalarOps"])],
+                "Oracle math/big mod n plus stored-limbs canonicity. Non-trivial = an operand (or the uint64) is > 1. Distinct by case hash. mul and square get a larger share; a quarter of the operands are used objects, a sixth are results of arithmetic (provenance); fixed cases sweep all values whose Montgomery limbs come from ten limb patterns (about 10^4) through square and aliased mul/add. Random limbs are uniform (gen.U64). endurance: one API function called 2^20+2^10 (quick; slower functions 2^17 or 2^13) or 2^24+2^12 (thorough; slowest 2^18) times in one process from call number 0, every call compared with a pre-computed model result, operands rotating through a table of boundary and ordinary values (rotation offset = shard); all cases non-trivial.",
+        "units": [unit("props", "^TestC06", tier(600000, 8, 900), tier(12000000, 16, 5400, fuzztime=90), fuzz=["FuzzScalarOps"]),
+                  unit("endure", "^TestEndure$", tier(1, 4, 900), tier(1, 4, 5400), env={"VERIF_ENDURE_PROP": "C06", "VERIF_SHARDS": "1"}, expects=["C06/endurance"])],
         "checks_expected": ["C06/ops"],
     },
     "C07": {
         "rule": "decode: byte strings by class (canonical values, n+-d, n+-2^k, n with one limb replaced, high values, wrong lengths "
                 "derived from valid encodings, random 0..80 bytes, random 32 bytes) through Decode/UnmarshalBinary/DecodeHex (hex: "
                 "upper/mixed case, odd length, non-hex rune); non-trivial = 32-byte input within 2^128 of n or differing from n in one "
-                "limb, or a non-empty wrong length, or malformed hex. encode: scalars in both domains; non-trivial = value > 1. Plus n with several 64- or 32-bit words perturbed at once; every decode case is evaluated twice in a row; the caller overwrites the slice returned by Order() before every case.",
-        "units": [unit("props", "^TestC07", tier(600000, 8, 900), tier(12000000, 16, 5400, fuzztime=90), fuzz=["FuzzScalarDecode"])],
+                "limb, or a non-empty wrong length, or malformed hex. encode: scalars in both domains; non-trivial = value > 1. Plus n with several 64- or 32-bit words perturbed at once; every decode case is evaluated twice in a row; the caller overwrites the slice returned by Order() before every case. endurance: one API function called 2^20+2^10 (quick; slower functions 2^17 or 2^13) or 2^24+2^12 (thorough; slowest 2^18) times in one process from call number 0, every call compared with a pre-computed model result, operands rotating through a table of boundary and ordinary values (rotation offset = shard); all cases non-trivial.",
+        "units": [unit("props", "^TestC07", tier(600000, 8, 900), tier(12000000, 16, 5400, fuzztime=90), fuzz=["FuzzScalarDecode"]),
+                  unit("endure", "^TestEndure$", tier(1, 4, 900), tier(1, 4, 5400), env={"VERIF_ENDURE_PROP": "C07", "VERIF_SHARDS": "1"}, expects=["C07/endurance"])],
         "checks_expected": ["C07/decode", "C07/encode"],
     },
     "C01": {
@@ -48,8 +52,9 @@ PROPS = {
                 "(0:Y:0)); k from the boundary-biased generator; oracle = affine double-and-add in the model on the value denoted by the "
                 "raw coordinates. Non-trivial = k > 1 and P != O (nil-scalar cases also count). kfold: k in 0..64 against literal k-fold "
                 "sums (model and implementation Add). metamorphic: [a]P+[n-a]P=O, [a]P+[b]P=[a+b]P, [a]([b]P)=[ab]P, [n-1]P=-P; "
-                "non-trivial = a,b > 1 and P != O. Distinct by case hash. Scalars come from gen.IntBoth (the boundary pattern may sit in the Montgomery form); in a third of the cases the scalar object was used before and received k through a mutator (object history).",
-        "units": [unit("wb", "^TestC01", tier(12000, 8, 900), tier(480000, 16, 5400), overlay="access")],
+                "non-trivial = a,b > 1 and P != O. Distinct by case hash. Scalars come from gen.IntBoth (the boundary pattern may sit in the Montgomery form); in a third of the cases the scalar object was used before and received k through a mutator (object history). endurance: one API function called 2^20+2^10 (quick; slower functions 2^17 or 2^13) or 2^24+2^12 (thorough; slowest 2^18) times in one process from call number 0, every call compared with a pre-computed model result, operands rotating through a table of boundary and ordinary values (rotation offset = shard); all cases non-trivial.",
+        "units": [unit("wb", "^TestC01", tier(12000, 8, 900), tier(480000, 16, 5400), overlay="access"),
+                  unit("endure", "^TestEndure$", tier(1, 4, 900), tier(1, 4, 5400), env={"VERIF_ENDURE_PROP": "C01", "VERIF_SHARDS": "1"}, expects=["C01/endurance"])],
         "checks_expected": ["C01/reference", "C01/kfold", "C01/metamorphic"],
     },
     "C02": {
@@ -58,24 +63,27 @@ PROPS = {
                 "re-represented by 0..3 recipe steps (incl. white-box rescaling and identity forms (0:1:0),(0:-1:0),(0:Y3:0),(0:Y:0)); "
                 "op from {Add, Subtract, Double, Negate}. Oracle: textbook affine law on the values denoted by the raw coordinates; result "
                 "must be a valid projective point, argument value unchanged. Non-trivial = anything but 'independent, both Z=1, neither "
-                "identity'. Distinct by case hash. In a third of the add/sub/double cases one named intermediate of the formula (X1X2, Z1Z2, X1Z2+X2Z1, Y^2, Z^2, ...) is aimed at a boundary value by re-scaling an operand (white-box).",
-        "units": [unit("wb", "^TestC02", tier(200000, 8, 900), tier(8000000, 16, 5400), overlay="access")],
+                "identity'. Distinct by case hash. In a third of the add/sub/double cases one named intermediate of the formula (X1X2, Z1Z2, X1Z2+X2Z1, Y^2, Z^2, ...) is aimed at a boundary value by re-scaling an operand (white-box). endurance: one API function called 2^20+2^10 (quick; slower functions 2^17 or 2^13) or 2^24+2^12 (thorough; slowest 2^18) times in one process from call number 0, every call compared with a pre-computed model result, operands rotating through a table of boundary and ordinary values (rotation offset = shard); all cases non-trivial.",
+        "units": [unit("wb", "^TestC02", tier(200000, 8, 900), tier(8000000, 16, 5400), overlay="access"),
+                  unit("endure", "^TestEndure$", tier(1, 4, 900), tier(1, 4, 5400), env={"VERIF_ENDURE_PROP": "C02", "VERIF_SHARDS": "1"}, expects=["C02/endurance"])],
         "checks_expected": ["C02/grouplaw"],
     },
     "C04": {
         "rule": "cases (point spec with 0..3 recipe steps, second recipe for the same base): Encode/EncodeUncompressed/XCoordinate/Hex/"
                 "MarshalBinary compared with SEC1 bytes built by the model from the value the raw coordinates denote; both encodings "
                 "round-trip through Decode (identity included); two representations encode identically. Non-trivial = identity, Z != 1, "
-                "odd y, or any recipe step. Distinct by case hash. Bases may be decoded into a used receiver object (Reuse) or into the element itself (selfdec); coordinate targets aim raw X/Y/Z (or their Montgomery limbs) at boundary patterns, incl. the word-wise neighbourhood of Montgomery-1; a receiver with Z != 1 also decodes the points whose affine x equals its raw X.",
-        "units": [unit("wb", "^TestC04", tier(120000, 8, 900), tier(4800000, 16, 5400), overlay="access")],
+                "odd y, or any recipe step. Distinct by case hash. Bases may be decoded into a used receiver object (Reuse) or into the element itself (selfdec); coordinate targets aim raw X/Y/Z (or their Montgomery limbs) at boundary patterns, incl. the word-wise neighbourhood of Montgomery-1; a receiver with Z != 1 also decodes the points whose affine x equals its raw X. endurance: one API function called 2^20+2^10 (quick; slower functions 2^17 or 2^13) or 2^24+2^12 (thorough; slowest 2^18) times in one process from call number 0, every call compared with a pre-computed model result, operands rotating through a table of boundary and ordinary values (rotation offset = shard); all cases non-trivial.",
+        "units": [unit("wb", "^TestC04", tier(120000, 8, 900), tier(4800000, 16, 5400), overlay="access"),
+                  unit("endure", "^TestEndure$", tier(1, 4, 900), tier(1, 4, 5400), env={"VERIF_ENDURE_PROP": "C04", "VERIF_SHARDS": "1"}, expects=["C04/endurance"])],
         "checks_expected": ["C04/encodings"],
     },
     "C05": {
         "rule": "ordered pairs by relation class {same element/different recipes, P vs -P (shared x), P vs endo(P) (shared y), endo+neg, "
                 "unrelated, any vs identity, identity vs identity (all identity forms), same pointer}; oracle = model equality of the "
                 "values denoted by the raw coordinates; symmetry, 0/1 range, IsIdentity. Non-trivial = shared coordinate, an identity "
-                "involved, equal elements in different representations, or any recipe step. Distinct by case hash. Additional relation 'line' (distinct points with y_Q-y_P = m(x_Q-x_P), m in {+-1,+-2,+-3}); in a third of the cases one of the four cross products of the comparison is aimed at a boundary value by re-scaling (white-box).",
-        "units": [unit("wb", "^TestC05", tier(200000, 8, 900), tier(8000000, 16, 5400), overlay="access")],
+                "involved, equal elements in different representations, or any recipe step. Distinct by case hash. Additional relation 'line' (distinct points with y_Q-y_P = m(x_Q-x_P), m in {+-1,+-2,+-3}); in a third of the cases one of the four cross products of the comparison is aimed at a boundary value by re-scaling (white-box). endurance: one API function called 2^20+2^10 (quick; slower functions 2^17 or 2^13) or 2^24+2^12 (thorough; slowest 2^18) times in one process from call number 0, every call compared with a pre-computed model result, operands rotating through a table of boundary and ordinary values (rotation offset = shard); all cases non-trivial.",
+        "units": [unit("wb", "^TestC05", tier(200000, 8, 900), tier(8000000, 16, 5400), overlay="access"),
+                  unit("endure", "^TestEndure$", tier(1, 4, 900), tier(1, 4, 5400), env={"VERIF_ENDURE_PROP": "C05", "VERIF_SHARDS": "1"}, expects=["C05/endurance"])],
         "checks_expected": ["C05/equal"],
     },
     "C03": {
@@ -85,8 +93,9 @@ PROPS = {
                 "and hybrid 06/07) x decoder in {Decode, DecodeCompressed, DecodeUncompressed, DecodeCoordinates, DecodeHex (case, odd "
                 "length, non-hex rune), UnmarshalBinary} x prior receiver (point spec with recipe). Oracle: acceptance predicate written "
                 "from the statement; accepted => exact point, rejected => error and unchanged receiver value. Non-trivial = every case "
-                "except random strings of a length no decoder accepts. Distinct by case hash. Every case is evaluated twice in a row (verdicts must not depend on the previous input); fixed cases enumerate the word-wise neighbourhood of p as compressed x exhaustively (625 + 6561 strings) and all 256 one-byte strings.",
-        "units": [unit("props", "^TestC03", tier(120000, 8, 900), tier(8000000, 16, 5400, fuzztime=120), fuzz=["FuzzElementDecode"])],
+                "except random strings of a length no decoder accepts. Distinct by case hash. Every case is evaluated twice in a row (verdicts must not depend on the previous input); fixed cases enumerate the word-wise neighbourhood of p as compressed x exhaustively (625 + 6561 strings) and all 256 one-byte strings. endurance: one API function called 2^20+2^10 (quick; slower functions 2^17 or 2^13) or 2^24+2^12 (thorough; slowest 2^18) times in one process from call number 0, every call compared with a pre-computed model result, operands rotating through a table of boundary and ordinary values (rotation offset = shard); all cases non-trivial.",
+        "units": [unit("props", "^TestC03", tier(120000, 8, 900), tier(8000000, 16, 5400, fuzztime=120), fuzz=["FuzzElementDecode"]),
+                  unit("endure", "^TestEndure$", tier(1, 4, 900), tier(1, 4, 5400), env={"VERIF_ENDURE_PROP": "C03", "VERIF_SHARDS": "1"}, expects=["C03/endurance"])],
         "checks_expected": ["C03/decoders"],
     },
     "C08": {
@@ -94,25 +103,28 @@ PROPS = {
                 "{0,1,3,16,55,56,63,64,65,119,120,128,512} or random <= 600; DST lengths {16,255,256,257,1,300,254,1000,...} or random "
                 "1..80 / 200..320, empty and nil DST; slices placed with interior offset and spare capacity. Oracle: independent RFC 9380 "
                 "implementation (sum taken on secp256k1 after the isogeny), determinism, result decodes. Non-trivial = every case with a "
-                "non-empty DST (classes of the model's branch trace are counted). Distinct by case hash. Fixed cases: exhaustive grid of message lengths 0..300 x 11 DST lengths (thorough: 0..1100 x 26). sequence: 2..6 calls from re-used caller buffers overwritten in place between calls.",
-        "units": [unit("props", "^TestC08", tier(40000, 8, 900), tier(1600000, 16, 5400, fuzztime=120), fuzz=["FuzzHashToCurve"])],
+                "non-empty DST (classes of the model's branch trace are counted). Distinct by case hash. Fixed cases: exhaustive grid of message lengths 0..300 x 11 DST lengths (thorough: 0..1100 x 26). sequence: 2..6 calls from re-used caller buffers overwritten in place between calls. endurance: one API function called 2^20+2^10 (quick; slower functions 2^17 or 2^13) or 2^24+2^12 (thorough; slowest 2^18) times in one process from call number 0, every call compared with a pre-computed model result, operands rotating through a table of boundary and ordinary values (rotation offset = shard); all cases non-trivial.",
+        "units": [unit("props", "^TestC08", tier(40000, 8, 900), tier(1600000, 16, 5400, fuzztime=120), fuzz=["FuzzHashToCurve"]),
+                  unit("endure", "^TestEndure$", tier(1, 4, 900), tier(1, 4, 5400), env={"VERIF_ENDURE_PROP": "C08", "VERIF_SHARDS": "1"}, expects=["C08/endurance"])],
         "checks_expected": ["C08/hash2curve", "C08/sequence"],
     },
     "C09": {
         "rule": "hash2scalar: (msg, DST, layouts) as for C08 against OS2IP(expand_message_xmd(msg, DST, 48)) mod n of the model. "
                 "widereduce: chosen 48-byte expander outputs (all ones, low/high half zero, high half all ones, multiples of n +-d, "
                 "n..3n +-d, limb patterns, random) fed to internal/scalar.HashToFieldElement; non-trivial = high half non-zero and value "
-                ">= n. expander (white-box): expandXMD(msg, DST, L) for L in {48, 96} against the model. Distinct by case hash. hash2scalar has the same length grid; sequence as for C08; widereduce also draws high parts equal to floor(2^k/c) +- d for c = 2^256 - n and fold-boundary limbs.",
+                ">= n. expander (white-box): expandXMD(msg, DST, L) for L in {48, 96} against the model. Distinct by case hash. hash2scalar has the same length grid; sequence as for C08; widereduce also draws high parts equal to floor(2^k/c) +- d for c = 2^256 - n and fold-boundary limbs. endurance: one API function called 2^20+2^10 (quick; slower functions 2^17 or 2^13) or 2^24+2^12 (thorough; slowest 2^18) times in one process from call number 0, every call compared with a pre-computed model result, operands rotating through a table of boundary and ordinary values (rotation offset = shard); all cases non-trivial.",
         "units": [unit("props", "^TestC09", tier(80000, 8, 900), tier(3200000, 16, 5400), expects=["C09/hash2scalar", "C09/sequence"]),
-                  unit("widepkg", "^TestC09", tier(800000, 8, 900), tier(16000000, 16, 5400), overlay="access", optional=True, expects=["C09/widereduce", "C09/expander"])],
+                  unit("widepkg", "^TestC09", tier(800000, 8, 900), tier(16000000, 16, 5400), overlay="access", optional=True, expects=["C09/widereduce", "C09/expander"]),
+                  unit("endure", "^TestEndure$", tier(1, 4, 900), tier(1, 4, 5400), env={"VERIF_ENDURE_PROP": "C09", "VERIF_SHARDS": "1"}, expects=["C09/endurance"])],
         "checks_expected": [],
     },
     "C11": {
         "rule": "sswu: field elements u from the boundary-biased generator in canonical and Montgomery domains, the three exceptional "
                 "values 0 and +-sqrt(-1/Z) as fixed cases and with probability 1/16; oracle = RFC 9380 6.6.2 (non-straight-line) and "
                 "E.1 isogeny in the model; also on-E', sgn0 rule, SSWU(-u) = -SSWU(u), image on secp256k1. isogeny (white-box): "
-                "points of E' built by the model from boundary-biased abscissae, both signs. Non-trivial = all (duplicates removed by hash). A third of the sswu cases solve u so that tv1 = Z u^2 or tv2 = tv1^2 + tv1 takes a boundary pattern; a third of the isogeny cases aim 1/x_den or y_den.",
-        "units": [unit("mappkg", "^TestC11", tier(80000, 8, 900), tier(3200000, 16, 5400), overlay="access")],
+                "points of E' built by the model from boundary-biased abscissae, both signs. Non-trivial = all (duplicates removed by hash). A third of the sswu cases solve u so that tv1 = Z u^2 or tv2 = tv1^2 + tv1 takes a boundary pattern; a third of the isogeny cases aim 1/x_den or y_den. endurance: one API function called 2^20+2^10 (quick; slower functions 2^17 or 2^13) or 2^24+2^12 (thorough; slowest 2^18) times in one process from call number 0, every call compared with a pre-computed model result, operands rotating through a table of boundary and ordinary values (rotation offset = shard); all cases non-trivial.",
+        "units": [unit("mappkg", "^TestC11", tier(80000, 8, 900), tier(3200000, 16, 5400), overlay="access"),
+                  unit("endureint", "^TestEndure$", tier(1, 4, 900), tier(1, 4, 5400), env={"VERIF_ENDURE_PROP": "C11", "VERIF_SHARDS": "1"}, expects=["C11/endurance"], optional=True)],
         "checks_expected": ["C11/sswu", "C11/isogeny"],
     },
     "C12": {
@@ -120,8 +132,9 @@ PROPS = {
                 "invert, sqrtratio, sgn0, iszero, equals, cmove(0|1), set, one, bytes}; operands boundary-biased in canonical and "
                 "Montgomery-limb domains; equals also on pairs differing in exactly one Montgomery limb; sqrtratio with 1/4 forced "
                 "squares. Oracle math/big mod p, canonicity of stored limbs. Non-trivial = an operand > 1. bytes: 32-byte strings around "
-                "p (p+-d, one limb replaced, top of range) for the parser flag/value, 48-byte classes for the wide reduction. mul and square get a larger share; exhaustive sweep of the ~10^4 limb-pattern elements through square/neg/iszero/sgn0/bytes; parser fixed cases enumerate the word-wise neighbourhood of p; 48-byte classes include fold-boundary limbs and quotient-by-defect high parts.",
-        "units": [unit("fieldpkg", "^TestC12", tier(800000, 8, 900), tier(16000000, 16, 5400, fuzztime=90), fuzz=["FuzzFieldOps"])],
+                "p (p+-d, one limb replaced, top of range) for the parser flag/value, 48-byte classes for the wide reduction. mul and square get a larger share; exhaustive sweep of the ~10^4 limb-pattern elements through square/neg/iszero/sgn0/bytes; parser fixed cases enumerate the word-wise neighbourhood of p; 48-byte classes include fold-boundary limbs and quotient-by-defect high parts. endurance: one API function called 2^20+2^10 (quick; slower functions 2^17 or 2^13) or 2^24+2^12 (thorough; slowest 2^18) times in one process from call number 0, every call compared with a pre-computed model result, operands rotating through a table of boundary and ordinary values (rotation offset = shard); all cases non-trivial.",
+        "units": [unit("fieldpkg", "^TestC12", tier(800000, 8, 900), tier(16000000, 16, 5400, fuzztime=90), fuzz=["FuzzFieldOps"]),
+                  unit("endureint", "^TestEndure$", tier(1, 4, 900), tier(1, 4, 5400), env={"VERIF_ENDURE_PROP": "C12", "VERIF_SHARDS": "1"}, expects=["C12/endurance"], optional=True)],
         "checks_expected": ["C12/ops", "C12/bytes"],
     },
     "C10": {
@@ -134,7 +147,7 @@ PROPS = {
                 "(Encode, IsIdentity, IsZero, all Equal pairs, LessOrEqual pairs, curve membership). Non-trivial = history with >= 10 "
                 "steps, >= 1 aliased call and >= 1 operation producing Z != 1. Distinct by hash of the whole history. Action e.repr changes the representation of an element without changing its value (API recipes; re-scaling and coordinate targets in the white-box build).",
         "units": [unit("props", "^TestC10", tier(12000, 8, 900), tier(480000, 16, 5400), overlay="access")],
-        "checks_expected": ["C10/history"],
+        "checks_expected": ["C10/history", "C10/long-lived"],
     },
     "C15": {
         "rule": "cases (call, arguments, layouts): call from 29 API functions in four groups - hashing (msg, DST), decoders (input "
@@ -144,15 +157,16 @@ PROPS = {
                 "compared with later results, two results must not overlap; non-receiver operands keep their value. Non-trivial = an input "
                 "slice with cap > len / interior / shared, any slice-returning call, or a pointer argument in a non-default representation. After every hashing case three later calls with short arguments run and the earlier buffers are re-checked (a buffer stays the caller's after the call returned).",
         "units": [unit("props", "^TestC15", tier(120000, 8, 900), tier(4800000, 16, 5400))],
-        "checks_expected": ["C15/memory"],
+        "checks_expected": ["C15/memory", "C15/retention"],
     },
     "C18": {
         "rule": "entropy scripts substituted for crypto/rand.Reader: 0..4 blocks congruent to 0 mod n (0 or n) followed by a usable block "
                 "from {n+d, n+2^k, 2^256-d, n-d, small, [2^129.., 2^256), uniform} and a 64..96 byte tail; Read calls return chunks from "
                 "{32,1,31,7,16,33,64} bytes (cycled); optional fault (error, EOF, or bytes+error) either strictly before the first usable "
                 "block is complete (must panic) or >= 64 bytes after it (must succeed). Oracle: first complete block with v mod n != 0, "
-                "reduced. Non-trivial = more than one block, a fault, or a first block >= n. Distinct by case hash. The failing source presents one of ten error identities (custom, EOF, ErrUnexpectedEOF, EINTR, EAGAIN, wrapped EINTR, PathError, timeout, ErrClosed, bytes+error).",
-        "units": [unit("props", "^TestC18", tier(400000, 8, 900), tier(16000000, 16, 5400))],
+                "reduced. Non-trivial = more than one block, a fault, or a first block >= n. Distinct by case hash. The failing source presents one of ten error identities (custom, EOF, ErrUnexpectedEOF, EINTR, EAGAIN, wrapped EINTR, PathError, timeout, ErrClosed, bytes+error). endurance: one API function called 2^20+2^10 (quick; slower functions 2^17 or 2^13) or 2^24+2^12 (thorough; slowest 2^18) times in one process from call number 0, every call compared with a pre-computed model result, operands rotating through a table of boundary and ordinary values (rotation offset = shard); all cases non-trivial.",
+        "units": [unit("props", "^TestC18", tier(400000, 8, 900), tier(16000000, 16, 5400)),
+                  unit("endure", "^TestEndure$", tier(1, 4, 900), tier(1, 4, 5400), env={"VERIF_ENDURE_PROP": "C18", "VERIF_SHARDS": "1"}, expects=["C18/endurance"])],
         "checks_expected": ["C18/random"],
     },
     "C16": {
